@@ -46,6 +46,14 @@ fn judge(m: Method, n: usize, kind: Kind, levels: &[f64], l: &mut Local) {
     sorted.dedup();
     for (li, &level) in sorted.iter().enumerate() {
         let mut row: Vec<Option<Obs>> = vec![None; n + 1];
+        if li % 2 == 1 {
+            // every other level is first asked with a different kind: an implementation that remembers
+            // a critical value per level only would then serve the wrong one for this whole row
+            let other = if kind == Kind::Two { Kind::Upper } else { Kind::Two };
+            if let Some(k0) = (0..=n).find(|k| m.admissible(n, *k)) {
+                let _ = m.call(other, level, n, k0);
+            }
+        }
         for k in 0..=n {
             if !m.admissible(n, k) {
                 continue;
